@@ -65,6 +65,14 @@ pub fn messages(thorough: bool) -> Vec<RMsg> {
     out.push(base(vec![(1, op.clone()), (2, vec![("copies".into(), RVal::Int(0x21, 2))]), (4, vec![]), (4, vec![("p".into(), kw("q"))]),
                        (5, vec![("u".into(), RVal::Other(0x10, vec![]))]), (2, vec![("copies".into(), RVal::Int(0x21, 3))])]));
     out.push(base(vec![(1, op.clone()), (1, vec![("second-op".into(), kw("x"))])]));
+    // every leading operation attribute present at once, and the same names used in other groups
+    let mut full_op = op.clone();
+    full_op.extend([("printer-uri".to_string(), t(0x45, "ipp://h/p")), ("job-uri".to_string(), t(0x45, "ipp://h/jobs/1")),
+                    ("job-id".to_string(), RVal::Int(0x21, 7)), ("requesting-user-name".to_string(), t(0x42, "u")), ("zzz".to_string(), kw("last"))]);
+    out.push(base(vec![(1, full_op.clone())]));
+    out.push(base(vec![(1, full_op), (5, vec![("attributes-charset".to_string(), t(0x47, "utf-16")), ("printer-uri".to_string(), t(0x45, "ipp://other/")),
+                                               ("job-id".to_string(), RVal::Int(0x21, 9)), ("job-uri".to_string(), t(0x45, "x"))]),
+                       (4, vec![("attributes-natural-language".to_string(), t(0x48, "fr"))])]));
     out.push(base(vec![(4, vec![("no-op-group".into(), kw("x"))])]));
     if thorough {
         out.push(base(vec![(1, op.clone()), (4, vec![("big".into(), t(0x41, &"z".repeat(65535)))])]));
